@@ -56,6 +56,28 @@ def label(repo: Repo) -> List[Ob]:
                         obs.append(ok("LABEL", ex, f"expand:{lab}", P, c.body[0], f"|{lab}> expands to {LABEL_VECTORS[lab]}"))
                     else:
                         obs.append(bad("LABEL", ex, f"expand:{lab}", P, c.body[0], f"label {lab} expands to {vec!r:.80}, not to {LABEL_VECTORS[lab]}"))
+    table_name = None
+    if n < 4:
+        # label -> amplitudes kept in a module-level table {PolarizationLabel.X: [..] | lambda: [..]}
+        for st in ex.module.tree.body:
+            tgt = st.targets[0] if isinstance(st, ast.Assign) and len(st.targets) == 1 else (st.target if isinstance(st, ast.AnnAssign) else None)
+            val = getattr(st, "value", None)
+            if isinstance(tgt, ast.Name) and isinstance(val, ast.Dict):
+                hits = 0
+                for k_, v_ in zip(val.keys, val.values):
+                    lab = (dotted(k_) or "").split(".")[-1]
+                    if lab in want:
+                        vec = _fold_list(v_.body if isinstance(v_, ast.Lambda) else v_)
+                        hits += 1
+                        n += 1
+                        if vec is None:
+                            obs.append(skip("LABEL", ex, f"expand:{lab}", P, v_, "vector literal not folded"))
+                        elif vec == want[lab]:
+                            obs.append(ok("LABEL", ex, f"expand:{lab}", P, v_, f"|{lab}> is tabulated as {LABEL_VECTORS[lab]}"))
+                        else:
+                            obs.append(bad("LABEL", ex, f"expand:{lab}", P, v_, f"label {lab} is tabulated as {vec!r:.80}, not as {LABEL_VECTORS[lab]}"))
+                if hits >= 4:
+                    table_name = tgt.id
     if n < 4:
         raise AnalysisError(f"LABEL: {n} label arms in Polarization.expand (floor 4)")
     co = repo.func("Polarization.contract")
@@ -72,17 +94,21 @@ def label(repo: Repo) -> List[Ob]:
                 k += 1
                 (obs.append(ok("LABEL", co, f"contract:{lab}", P, i, f"{LABEL_VECTORS[lab]} contracts to {lab}")) if vec == want[lab] else
                  obs.append(bad("LABEL", co, f"contract:{lab}", P, i, f"the vector {vec!r:.60} is contracted to label {lab}, whose vector is {LABEL_VECTORS[lab]}: expand(contract(x)) != x")))
-    if k < 4:
+    if k < 4 and table_name and table_name in src(co.node) and table_name in src(ex.node):
+        obs.append(ok("LABEL", co, "contract:table", P, co.node, f"expand and contract read the same table `{table_name}`"))
+    elif k < 4:
         raise AnalysisError(f"LABEL: {k} label recognitions in Polarization.contract (floor 4)")
     # outcome -> label: 0 -> H, 1 -> V at every site
     sites = 0
     for q in ["Polarization.measure", "ProductState.measure"]:
         fi = repo.func(q)
         j = 0
+        from .measure import outcome_names
+        onames = outcome_names(fi.node)
         for i in [x for x in walk_no_nested(fi.node) if isinstance(x, ast.If)]:
             t = i.test
             if isinstance(t, ast.Compare) and len(t.ops) == 1 and isinstance(t.ops[0], ast.Eq) and isinstance(t.comparators[0], ast.Constant) and t.comparators[0].value in (0, 1) \
-                    and ("outcomes[" in src(t.left) or "results[" in src(t.left)):
+                    and ("outcomes[" in src(t.left) or "results[" in src(t.left) or (isinstance(t.left, ast.Name) and t.left.id in onames)):
                 def lab_of(body):
                     for s in body:
                         if isinstance(s, ast.Assign) and src(s.targets[0]).endswith(".state") and "PolarizationLabel" in src(s.value):
